@@ -29,6 +29,7 @@ from ..astutil import (text, access_path, calls_in, func_params, stmts_of, is_co
 from ..loader import where, AnalysisError
 from ..paths import Enumerator
 from .. import poly
+from ..terms import Terms, PathEnv, specialise
 
 VERIFIED_OPS = {}     # class name -> True when R2 proved it
 
@@ -74,11 +75,16 @@ def r1_clip(ctx, repo):
         ctx.inconclusive("R1", C, where(cls.module, fn), "unexpected shape")
         return None
     v, lo, hi = ps
-    ge, le = minmax_facts(rets[0].value, lo, hi)
+    rv = Terms(fn).returns[0][1] if Terms(fn).returns else rets[0].value
+    ge, le = minmax_facts(rv, lo, hi)
     if ge and le:
-        ctx.holds("R1", C, where(cls.module, fn), "%s is within [%s, %s] (given %s <= %s)" % (text(rets[0].value), lo, hi, lo, hi))
+        ctx.holds("R1", C, where(cls.module, fn), "%s is within [%s, %s] (given %s <= %s)" % (text(rv), lo, hi, lo, hi))
         return ps
-    ctx.violated("R1", C, where(cls.module, fn), "%s is not proved %s: a value can leave the box through clip" % (text(rets[0].value), ">= " + lo if not ge else "<= " + hi))
+    # a recognised contradiction needs a pure min/max nest over the three parameters; anything else is outside the fragment
+    pure = all(isinstance(n, (ast.Call, ast.Name, ast.Load)) and (not isinstance(n, ast.Call) or access_path(n.func) in ("min", "max"))
+               and (not isinstance(n, ast.Name) or n.id in (v, lo, hi, "min", "max")) for n in ast.walk(rv))
+    ctx.check3(False if pure else None, "R1", C, where(cls.module, fn), "", "%s is not proved %s: a value can leave the box through clip" % (text(rv), ">= " + lo if not ge else "<= " + hi),
+               "clip returns %s, which is not a min/max nest over its parameters" % text(rv))
     return None
 
 
@@ -276,53 +282,75 @@ def r3_generators(ctx, repo):
     dflt = dict(zip(names[len(names) - len(a.defaults):], a.defaults))
     if not (is_const(dflt.get("distribution")) and const_value(dflt["distribution"]) == "uniform"):
         ctx.violated("R3", C, where(mod, fn), "the default distribution is not 'uniform' (the normal draw is unbounded)", key="default-distribution")
-    uni = [s for s in fn.body if isinstance(s, ast.If) and "'uniform'" in text(s.test)]
-    if len(uni) != 1:
-        ctx.inconclusive("R3", C, where(mod, fn), "uniform branch not found", key="unit-affine")
+    T = Terms(fn)
+    if len(T.returns) != 1 or T.returns[0][1] is None:
+        ctx.inconclusive("R3", C, where(mod, fn), "single returned value not found", key="unit-affine")
         return
-    draw = rnd = None
-    for s in uni[0].body:
-        if isinstance(s, ast.Assign) and isinstance(s.targets[0], ast.Name):
-            v = s.value
-            if any(access_path(c.func) in ("random", "random.random") for c in calls_in(v)):
-                draw = s
-            elif any(access_path(c.func) in ("round", "int", "np.round", "math.floor", "np.floor", "np.rint", "math.ceil") for c in calls_in(v)):
-                rnd = s
-    if draw is None:
-        ctx.inconclusive("R3", C, where(mod, uni[0]), "uniform draw not found", key="unit-affine")
+    # the value returned for a real-valued uniform draw, written over the parameters
+    spec = specialise(T.returns[0][1], {"distribution": "uniform", "p_type": "real"})
+    draws = [c for c in ast.walk(spec) if isinstance(c, ast.Call) and access_path(c.func) in ("random", "random.random")]
+    anchor = fn
+    for s_ in stmts_of(fn):
+        if isinstance(s_, ast.Assign) and any(access_path(c.func) in ("random", "random.random") for c in calls_in(s_.value)):
+            anchor = s_
+    # shape: round(B / precision) * precision
+    inner = None
+    rcall = None
+    if isinstance(spec, ast.BinOp) and isinstance(spec.op, ast.Mult):
+        for x, y in ((spec.left, spec.right), (spec.right, spec.left)):
+            if isinstance(x, ast.Call) and len(x.args) == 1 and isinstance(x.args[0], ast.BinOp) and isinstance(x.args[0].op, ast.Div) \
+                    and text(x.args[0].right) == text(y):
+                rcall, inner = x, x.args[0].left
+    if not draws:
+        ctx.inconclusive("R3", C, where(mod, fn), "uniform draw not found in the returned value %s" % text(spec)[:120], key="unit-affine")
     else:
-        # number = u * (b1 - b0) + b0 with u = random()
-        expr = draw.value
-        class T(ast.NodeTransformer):
+        expr = inner if inner is not None else spec
+        if inner is None:
+            # no snapping recognised: take the largest arithmetic sub-term around the draw
+            class Strip(ast.NodeTransformer):
+                def visit_Call(self, n):
+                    if access_path(n.func) in ("round", "int", "np.round", "math.floor", "np.floor", "np.rint", "math.ceil", "float") and len(n.args) == 1:
+                        return self.visit(n.args[0])
+                    return self.generic_visit(n)
+            expr = None
+
+        class U1(ast.NodeTransformer):
             def visit_Call(self, n):
                 if access_path(n.func) in ("random", "random.random"):
                     return ast.Name(id="u", ctx=ast.Load())
                 return self.generic_visit(n)
         import copy
-        e2 = T().visit(copy.deepcopy(expr))
-        want = poly.parse("bounds[0] + u * (bounds[1] - bounds[0])")
-        eq = poly.equal(e2, want)
-        if eq:
-            ctx.holds("R3", C, where(mod, draw), "number = lo + u*(hi-lo), u in [0,1): unit-affine in the bounds", key="unit-affine")
-        elif eq is False:
-            ctx.violated("R3", C, where(mod, draw), "the uniform draw %s is not lo + u*(hi-lo) with u in [0,1)" % text(expr), key="unit-affine")
+        if expr is None:
+            ctx.inconclusive("R3", C, where(mod, anchor), "draw expression not isolated in %s" % text(spec)[:120], key="unit-affine")
+        elif len({(c.lineno, c.col_offset) for c in draws if any(c is n for n in ast.walk(expr))} or {0}) > 1:
+            ctx.inconclusive("R3", C, where(mod, anchor), "several draws in one value", key="unit-affine")
         else:
-            ctx.inconclusive("R3", C, where(mod, draw), "draw expression not normalisable", key="unit-affine")
-    if rnd is not None:
-        v = rnd.value
-        # round(number / precision) * precision
-        okr = isinstance(v, ast.BinOp) and isinstance(v.op, ast.Mult) and any(
-            isinstance(x, ast.Call) and access_path(x.func) in ("round", "np.round", "np.rint") and len(x.args) == 1
-            and isinstance(x.args[0], ast.BinOp) and isinstance(x.args[0].op, ast.Div) and text(x.args[0].right) == "precision" for x in (v.left, v.right)) \
-            and any(text(x) == "precision" for x in (v.left, v.right))
-        if okr:
-            ctx.holds("R3", C, where(mod, rnd), "rounded to the NEAREST multiple of the precision: at most precision/2 away from the in-box draw", key="rounding")
-        else:
-            trunc = any(access_path(c.func) in ("int", "math.floor", "np.floor", "math.ceil", "math.trunc") for c in calls_in(v))
-            if trunc:
-                ctx.violated("R3", C, where(mod, rnd), "the draw is snapped to the precision grid with %s, which is not rounding to nearest for every sign (int() truncates toward zero): a value can move a full precision step, beyond the half-precision tolerance, outside the box" % text(v), key="rounding")
+            e2 = U1().visit(copy.deepcopy(expr))
+            want = poly.parse("bounds[0] + u * (bounds[1] - bounds[0])")
+            eq = poly.equal(e2, want)
+            if eq:
+                ctx.holds("R3", C, where(mod, anchor), "number = lo + u*(hi-lo), u in [0,1): unit-affine in the bounds", key="unit-affine")
+            elif eq is False:
+                ctx.violated("R3", C, where(mod, anchor), "the uniform draw %s is not lo + u*(hi-lo) with u in [0,1)" % text(expr), key="unit-affine")
             else:
-                ctx.inconclusive("R3", C, where(mod, rnd), "rounding expression %s not recognised" % text(v), key="rounding")
+                ctx.inconclusive("R3", C, where(mod, anchor), "draw expression not normalisable", key="unit-affine")
+    snappers = [c for c in ast.walk(spec) if isinstance(c, ast.Call) and access_path(c.func) in
+                ("round", "int", "np.round", "math.floor", "np.floor", "np.rint", "math.ceil", "math.trunc")]
+    if snappers:
+        ranchor = anchor
+        for s_ in stmts_of(fn):
+            if isinstance(s_, ast.Assign) and any(access_path(c.func) in ("round", "np.round", "np.rint", "int", "math.floor", "np.floor", "math.ceil", "math.trunc")
+                                                  for c in calls_in(s_.value)) and "precision" in text(s_.value):
+                ranchor = s_
+        okr = rcall is not None and access_path(rcall.func) in ("round", "np.round", "np.rint")
+        if okr:
+            ctx.holds("R3", C, where(mod, ranchor), "rounded to the NEAREST multiple of the precision: at most precision/2 away from the in-box draw", key="rounding")
+        else:
+            trunc = [c for c in snappers if access_path(c.func) in ("int", "math.floor", "np.floor", "math.ceil", "math.trunc")]
+            if trunc:
+                ctx.violated("R3", C, where(mod, ranchor), "the draw is snapped to the precision grid with %s, which is not rounding to nearest for every sign (int() truncates toward zero): a value can move a full precision step, beyond the half-precision tolerance, outside the box" % text(spec)[:160], key="rounding")
+            else:
+                ctx.inconclusive("R3", C, where(mod, ranchor), "rounding expression %s not recognised" % text(spec)[:160], key="rounding")
     # default precision literal
     prec = [s for s in stmts_of(fn) if isinstance(s, ast.Assign) and access_path(s.targets[0]) == "precision" and is_const(s.value)]
     if prec:
@@ -339,22 +367,30 @@ def r3_generators(ctx, repo):
         lp = loops[0]
         outn = None
         bad = None
+        unknown = None
         n = 0
         for p in Enumerator(loop_counts=(0, 1)).function_paths(body_fn(lp.body, fn.args, lp.lineno)):
             n += 1
-            apps = [c for e in p.events if e.kind == "stmt" for c in calls_in(e.node) if method_call(c) and method_call(c)[1] == "append"]
+            apps_ = [(e.node, c) for e in p.events if e.kind == "stmt" for c in calls_in(e.node) if method_call(c) and method_call(c)[1] == "append"]
+            apps = [c for _, c in apps_]
             if len(apps) != 1:
                 bad = bad or "%d coordinates appended for one parameter on the path [%s]" % (len(apps), p.describe(4))
                 continue
             outn = access_path(method_call(apps[0])[0])
-            arg = apps[0].args[0]
+            # the appended value with the temporaries of this path looked through
+            pe = PathEnv(fn, p.events)
+            arg = pe.expand(apps[0].args[0], at=apps_[0][0])
+            bx = text(pe.expand(ast.Name(id="bounds", ctx=ast.Load()), at=apps_[0][0]))
             if not (isinstance(arg, ast.Call) and (access_path(arg.func) or "").endswith("gen_number")):
-                bad = bad or "a coordinate is not produced by gen_number (%s)" % text(arg)
+                if isinstance(arg, ast.Name):
+                    unknown = unknown or "appended value %s not resolved on the path [%s]" % (text(arg), p.describe(4))
+                else:
+                    bad = bad or "a coordinate is not produced by gen_number (%s)" % text(arg)
                 continue
             # when bounds are known on the path they must be passed
             knows_bounds = any(e.kind == "guard" and "bounds is None" in text(e.node) and e.val is False for e in p.events) or \
                 not any(e.kind == "guard" and "bounds is None" in text(e.node) for e in p.events)
-            passes = any(k.arg == "bounds" for k in arg.keywords) or (arg.args and access_path(arg.args[0]) == "bounds")
+            passes = any(k.arg == "bounds" and text(k.value) == bx for k in arg.keywords) or (arg.args and text(arg.args[0]) == bx)
             has_b = any(e.kind == "guard" and "'bounds' in" in text(e.node) and ((not e.val) if isinstance(e.node, ast.UnaryOp) else True) for e in p.events)
             none_true = any(e.kind == "guard" and "bounds is None" in text(e.node) and e.val is True for e in p.events)
             if not passes and not none_true:
@@ -362,6 +398,8 @@ def r3_generators(ctx, repo):
         rv = access_path(rets[-1].value.func.value) if isinstance(rets[-1].value, ast.Call) and isinstance(rets[-1].value.func, ast.Attribute) else access_path(rets[-1].value)
         if bad:
             ctx.violated("R3", C, where(mod, lp), bad, key="one-per-parameter")
+        elif unknown:
+            ctx.inconclusive("R3", C, where(mod, lp), unknown, key="one-per-parameter")
         else:
             ctx.holds("R3", C, where(mod, lp), "exactly one gen_number(bounds...) per declared parameter on all %d body paths" % n, key="one-per-parameter")
 
@@ -372,12 +410,16 @@ def r3_generators(ctx, repo):
     if fn is None:
         raise AnalysisError("construct_df_from_random_matrix not found")
     xs, fl = func_params(fn)[:2]
-    apps = [c for c in calls_in(fn) if method_call(c) and method_call(c)[1] == "append" and c.args and "fabs" in text(c.args[0]) or
-            (method_call(c) and method_call(c)[1] == "append" and c.args and isinstance(c.args[0], ast.BinOp))]
+    TD = Terms(fn)
+    apps = []
+    for st_ in stmts_of(fn):
+        if isinstance(st_, ast.Expr) and method_call(st_.value) and method_call(st_.value)[1] == "append" and st_.value.args:
+            ex_ = TD.expand(st_.value.args[0], at=st_)
+            if isinstance(ex_, ast.BinOp):
+                apps.append(ex_)
     ok = False
-    detail = "scaling expression not found"
-    for c in apps:
-        e = c.args[0]
+    detail = None
+    for e in apps:
         import copy
 
         class U(ast.NodeTransformer):
@@ -400,9 +442,10 @@ def r3_generators(ctx, repo):
             eq = poly.equal(e3, want)
             if eq:
                 ok = True
-            else:
+            elif eq is False:
                 detail = "scaling %s is not lo + w*(hi-lo)" % text(e)
-    ctx.check(ok, "R3", C, where(doe, fn), "unit samples are mapped by lo + w*(hi-lo) with the bounds of the same column" if ok else detail, key="unit-affine-doe")
+    ctx.check3(True if ok else (False if detail else None), "R3", C, where(doe, fn), "unit samples are mapped by lo + w*(hi-lo) with the bounds of the same column", detail or "",
+               "scaling expression not found", key="unit-affine-doe")
 
     # UniformGenerator grid
     ug = repo.cls("UniformGenerator", "operators")
@@ -498,28 +541,41 @@ def r4_positions(ctx, repo):
         for p in Enumerator(loop_counts=(0, 1)).function_paths(body_fn(lp.body, fn.args, lp.lineno)):
             npaths += 1
             le = ge = False
-            for e in p.events:
+            pe = PathEnv(fn, p.events)
+            for k_, e in enumerate(p.events):
                 if e.kind == "stmt":
                     s = e.node
                     for t in store_targets(s):
-                        if ".vector[" in text(t):
+                        if ".vector[" in text(pe.expand_at(t, k_)):
                             v = getattr(s, "value", None)
-                            if isinstance(s, ast.Assign) and text(v).endswith("['bounds'][1]"):
+                            vt = text(pe.expand_at(v, k_)) if v is not None else ""
+                            if isinstance(s, ast.Assign) and vt.endswith("['bounds'][1]"):
                                 le, ge = True, True
-                            elif isinstance(s, ast.Assign) and text(v).endswith("['bounds'][0]"):
+                            elif isinstance(s, ast.Assign) and vt.endswith("['bounds'][0]"):
                                 le, ge = True, True
                             else:
                                 le = ge = False
-                elif e.kind == "guard" and isinstance(e.node, ast.Compare) and len(e.node.ops) == 1 and ".vector[" in text(e.node.left):
-                    r = text(e.node.comparators[0])
+                elif e.kind == "guard" and isinstance(e.node, ast.Compare) and len(e.node.ops) == 1:
+                    lt_, rt_ = text(pe.expand_at(e.node.left, k_)), text(pe.expand_at(e.node.comparators[0], k_))
                     op = type(e.node.ops[0])
+                    if ".vector[" in rt_ and ".vector[" not in lt_:
+                        # bound OP coordinate: mirror
+                        lt_, rt_ = rt_, lt_
+                        op = {ast.Gt: ast.Lt, ast.Lt: ast.Gt, ast.GtE: ast.LtE, ast.LtE: ast.GtE}.get(op, op)
+                    if ".vector[" not in lt_:
+                        continue
+                    r = rt_
                     if r.endswith("['bounds'][1]") and op in (ast.Gt,) and e.val is False:
                         le = True
                     if r.endswith("['bounds'][1]") and op in (ast.GtE,) and e.val is False:
                         le = True
+                    if r.endswith("['bounds'][1]") and op in (ast.LtE, ast.Lt) and e.val is True:
+                        le = True
                     if r.endswith("['bounds'][0]") and op in (ast.Lt,) and e.val is False:
                         ge = True
                     if r.endswith("['bounds'][0]") and op in (ast.LtE,) and e.val is False:
+                        ge = True
+                    if r.endswith("['bounds'][0]") and op in (ast.GtE, ast.Gt) and e.val is True:
                         ge = True
             if not (le and ge):
                 bad = bad or "on the path [%s] the coordinate is not proved %s" % (p.describe(4), "<= upper bound" if not le else ">= lower bound")
